@@ -6,14 +6,19 @@ import vlib
 from props import exact_common as ec
 
 FN = {"x2": ["xy.DistanceFromLineToLine", "xy.DistanceFromLineToLine(swapped)", "xy.DistanceFromPointToLine(c;ab)",
-             "xy.DistanceFromPointToLine(a;cd)"],
+             "xy.DistanceFromPointToLine(a;cd)", "xy.PerpendicularDistanceFromPointToLine(c;ab)",
+             "xy.DistanceFromPointToLineString(c;a-b-d)", "xy.DistanceFromPointToLineString(c;d-b-a)"],
       "x3": ["xyz.DistanceLineToLine", "xyz.DistanceLineToLine(swapped)", "xyz.DistancePointToLine(c;ab)",
-             "xyz.DistancePointToLine(a;cd)"]}
+             "xyz.DistancePointToLine(a;cd)", "xyz.Distance(a,c)", "xyz.Distance(d,b)"]}
 # candidate SETS (no CHOOSE: see the comment at SqDistSegSeg2Set in ExactGeom.tla)
 SPEC = {"x2": ["SqDistSegSeg2Set(%(a)s, %(b)s, %(c)s, %(d)s)", "SqDistSegSeg2Set(%(c)s, %(d)s, %(a)s, %(b)s)",
-               "{SqDistPtSeg2(%(c)s, %(a)s, %(b)s)}", "{SqDistPtSeg2(%(a)s, %(c)s, %(d)s)}"],
+               "{SqDistPtSeg2(%(c)s, %(a)s, %(b)s)}", "{SqDistPtSeg2(%(a)s, %(c)s, %(d)s)}",
+               "{SqDistPtLine2(%(c)s, %(a)s, %(b)s)}",
+               "{SqDistPtSeg2(%(c)s, %(a)s, %(b)s), SqDistPtSeg2(%(c)s, %(b)s, %(d)s)}",
+               "{SqDistPtSeg2(%(c)s, %(a)s, %(b)s), SqDistPtSeg2(%(c)s, %(b)s, %(d)s)}"],
         "x3": ["SqDistSegSeg3Set(%(a)s, %(b)s, %(c)s, %(d)s)", "SqDistSegSeg3Set(%(c)s, %(d)s, %(a)s, %(b)s)",
-               "{SqDistPtSeg3(%(c)s, %(a)s, %(b)s)}", "{SqDistPtSeg3(%(a)s, %(c)s, %(d)s)}"]}
+               "{SqDistPtSeg3(%(c)s, %(a)s, %(b)s)}", "{SqDistPtSeg3(%(a)s, %(c)s, %(d)s)}",
+               "{<<Dot3(Sub3(%(c)s, %(a)s), Sub3(%(c)s, %(a)s)), 1>>}", "{<<Dot3(Sub3(%(d)s, %(b)s), Sub3(%(d)s, %(b)s)), 1>>}"]}
 
 
 def big_pipe(ctx, verdict, cases, name="distx"):
